@@ -184,7 +184,7 @@ def corpus():
 
 
 def check(run: Run, lean: dict) -> int:
-    n = 1500 if run.tier == "quick" else 40000
+    n = run.budget(1500, 40000)
     widths = WIDTHS
     run.extra["rule"] = (
         "generated mixed-content trees reduced by the independent oracle (nested inline elements, comments/PIs between text, "
